@@ -4,7 +4,7 @@ from vlib import Check
 
 
 def run():
-    chk = Check("C12")
+    chk = Check("C12", level="exploration")
     chk.add_model("ContextMC (frame condition, disjoint stacks; 3 tasks)", vlib.model_check("ContextMC", "ContextMC.cfg", timeout=600))
     (binary,) = vlib.build_harness(["ctx_harness"])
     nruns = 64 if chk.thorough() else 16
